@@ -518,8 +518,8 @@ func findNonSpace(r []rune, i, end int) int {
 // findEnd finds end of the current symbol (position of next #, space, or line
 // end), returning end if not found.
 func findEnd(r []rune, i, end int) int {
-	for c := grab(r, i+1, end); i < end && c != '#' && !unicode.IsSpace(c) && !unicode.IsControl(c); i++ {
-		c = grab(r, i+1, end)
+	for c := grab(r, i, end); i < end && c != '#' && !unicode.IsSpace(c) && !unicode.IsControl(c); c = grab(r, i, end) {
+		i++
 	}
 
 	return i
@@ -562,8 +562,8 @@ func decodeKey(seq []rune, pos, end int) (string, int, error) {
 	// seek end of sequence
 	start := pos
 
-	for c := grab(seq, pos+1, end); pos < end && c != ':' && c != '#' && !unicode.IsSpace(c) && !unicode.IsControl(c); pos++ {
-		c = grab(seq, pos+1, end)
+	for c := grab(seq, pos, end); pos < end && c != ':' && c != '#' && !unicode.IsSpace(c) && !unicode.IsControl(c); c = grab(seq, pos, end) {
+		pos++
 	}
 
 	val := strings.ToLower(string(seq[start:pos]))
